@@ -579,9 +579,13 @@ class HttpParser(abc.ABC, Generic[_MsgT]):
 
                     payload_state = PayloadState.PAYLOAD_COMPLETE
                     data = b""
+                    # Any error in the chunk framing or in the trailers (bad
+                    # syntax or an exceeded limit) loses track of where the
+                    # message ends; only a body that merely fails to decode
+                    # leaves the message boundary intact.
                     if isinstance(
-                        underlying_exc, (InvalidHeader, TransferEncodingError)
-                    ):
+                        underlying_exc, BadHttpMessage
+                    ) and not isinstance(underlying_exc, ContentEncodingError):
                         raise
 
                 self._payload_has_more_data = (
